@@ -313,12 +313,11 @@ def SS.accept (p : Prog) (s : SS) (buf : List UInt64) : Except Stop (Bool × SS)
     else
       let r2 := checkOnce p (.buf buf) TS.fresh
       let log := buf :: s.log
-      match (recOfToks r2.toks).prune with
-      | none => .error (.badRec log)
-      | some rec' =>
-        if compareData rec'.data buf > 0 then .error (.badRec log)
-        else if !sameError r1.err r2.err then .error (.mismatch rec'.data r2.err log)
-        else .ok (true, { s with rc := rec', err := r1.err, shrinks := s.shrinks + 1, log := log })
+      let rec' := prunedOfToks r2.toks
+      if !rec'.noEmptyGroup then .error (.badRec log)
+      else if compareData rec'.data buf > 0 then .error (.badRec log)
+      else if !sameError r1.err r2.err then .error (.mismatch rec'.data r2.err log)
+      else .ok (true, { s with rc := rec', err := r1.err, shrinks := s.shrinks + 1, log := log })
 
 def Script.run {α : Type} (p : Prog) : Script α → SS → Except Stop (α × SS)
   | .ret a, s => .ok (a, s)
@@ -336,10 +335,10 @@ structure ShrinkOut where
   log : List (List UInt64)      -- buffers run, in order
 
 /-- `shrink(tb, deadline, rec, err, prop)` with a deadline that never expires -/
-def shrinkFull (p : Prog) (rec : Rec) (err : Option Err) (F : Nat) : ShrinkOut :=
-  match rec.prune with
-  | none => ⟨rec.data, err, some "prune", []⟩
-  | some rec0 =>
+def shrinkFull (p : Prog) (toks : List Tok) (err : Option Err) (F : Nat) : ShrinkOut :=
+  let rec0 := prunedOfToks toks
+  if !rec0.noEmptyGroup then ⟨rec0.data, err, some "assertion failed", []⟩
+  else
     match (shrinkScript F).run p { rc := rec0, err := err } with
     | .ok (_, s) => ⟨s.rc.data, s.err, none, s.log.reverse⟩
     | .error (.mismatch d e log) => ⟨d, e, none, log.reverse⟩
